@@ -535,6 +535,9 @@ func (s *bitcoinStream) genDepositTxs(r *tr.Rng) {
 		case 5:
 			val, cls = 1<<63+uint64(r.Intn(1000)), cls+"/value-negative-int64"
 		}
+		if p.MinDepositAmount >= 1<<62 { // paused: every ordinary value - dust in particular - stays below the minimum
+			val, cls = tr.Pick(r, uint64(0), 1, 546, 600, 999, 10000, 100000000), cls+"/below-huge-minimum"
+		}
 		sc, data := s.depositOutputs(k, version, evm, p.DepositMagicPrefix)
 		if k.Kind == "1" && r.Chance(12) {
 			// version 1 exists only for ECDSA keys: the obvious analogue for a Schnorr key (key-path output of the relayer key
@@ -963,6 +966,10 @@ func (s *bitcoinStream) genBridgeReq(r *tr.Rng) {
 	if r.Chance(20) {
 		min = append(min, fmt.Sprint(big[r.Intn(8)]))
 		cls += "+min"
+	} else if r.Chance(3) {
+		// deposits "paused" by a minimum no output can reach: any value of the 64-bit field is legal for the request decoder
+		min = append(min, fmt.Sprint(tr.Pick(r, uint64(1)<<63, 1<<63+1, 1<<64-1, 1<<63-1)))
+		cls += "+min-huge"
 	}
 	s.push(tr.NewOp("req.bridge"+cls, "req.bridge", "withdraws", tr.StrList(ws), "rbf", tr.StrList(rbf), "cancel", tr.StrList(cancel),
 		"tax", tr.StrList(tax), "conf", tr.StrList(conf), "min", tr.StrList(min)))
